@@ -23,7 +23,7 @@ import (
 // helper that rewinds both throws away the first application message that arrived with the handshake.
 func BufferedBytesKept(p *load.Program, run *report.Run) {
 	const rule = "buffered-bytes-not-dropped"
-	run.Rule(rule, "every store of 0 to the ReadEnd field of an existing p2p.Conn lies on the edge of a test of ReadStart against ReadEnd on which the window is empty; every store of 0 to WritePos is preceded on every path by the hand-off of the buffer (a send on toWriter) or lies on the edge of a test on which WritePos is 0; stores into a Conn under construction are exempt; with built-in examples")
+	run.Rule(rule, "every store of 0 to the ReadEnd field of an existing p2p.Conn lies on the edge of a test of ReadStart against ReadEnd on which the window is empty; every store of 0 to WritePos is preceded on every path by the hand-off of the buffer (a send on toWriter, or a Write of WriteBuf[0:WritePos] to the transport) or lies on the edge of a test on which WritePos is 0; stores into a Conn under construction are exempt; with built-in examples")
 	pkg, err := p.Pkg("p2p")
 	if err != nil {
 		run.Undecided(rule, "p2p", "", err.Error())
@@ -212,6 +212,14 @@ func rewinds(fn *ssa.Function) []rewind {
 			if field == "WritePos" && !r.ok {
 				for _, g := range fn.Blocks {
 					for j, x := range g.Instrs {
+						// written to the transport directly: conn.Write(WriteBuf[0:WritePos])
+						if c, ok := x.(*ssa.Call); ok && c.Call.IsInvoke() && c.Call.Method.Name() == "Write" && len(c.Call.Args) == 1 {
+							if sl, ok := c.Call.Args[0].(*ssa.Slice); ok && loadOf(sl.X, "WriteBuf", base) && sl.High != nil && loadOf(sl.High, "WritePos", base) {
+								if g == b && j < i || g != b && g.Dominates(b) {
+									r.ok, r.why = true, "the buffered bytes have been written to the transport"
+								}
+							}
+						}
 						if snd, ok := x.(*ssa.Send); ok {
 							if f, bb := fieldOf(chanFieldAddr(snd.Chan)); f == "toWriter" && bb == base {
 								if g == b && j < i || g != b && g.Dominates(b) {
